@@ -25,7 +25,7 @@ META = {
             "value, the FrozenTrial given to callbacks), then the writer runs and every retained object is re-pickled: the reader x "
             "writer x backend product is enumerated completely. Second clause: results documented as copies are vandalised field "
             "by field and a fresh read must equal the state before. A short 2-thread soak reads study.user_attrs/trials while "
-            "another thread writes. Held on the products enumerated.",
+            "another thread writes. Writers include optimize runs whose objective returns NaN / None / the wrong number of values (tell-warning path). Held on the products enumerated.",
     "note": "Trusted: pickle equality of a retained object before/after (an unmutated object re-pickles identically). Results of "
             "deepcopy=False / storage.get_trial are only checked against later WRITES, not against user vandalism (the storage "
             "contract lets the storage assume the user does not modify them).",
